@@ -161,3 +161,96 @@ contract(
     modifies=["keys", "data"],
     props=["C20"],
 )
+
+
+# --------------------------------------------------------------------------- bounded domains (run-time evaluation)
+import itertools as _it
+
+
+def _arrays(maxn, vals):
+    for n in range(0, maxn + 1):
+        for t in _it.product(vals, repeat=n):
+            yield list(t)
+
+
+@domain("esutil.algorithm.partition")
+def _dom_partition(tier, seed):
+    maxn = 4 if tier == "quick" else 6
+    for data in _arrays(maxn, (0, 1, 2)):
+        for s in range(len(data)):
+            for e in range(s, len(data)):
+                yield dict(args=[list(data), s, e])
+
+
+@domain("esutil.algorithm.quicksort")
+def _dom_quicksort(tier, seed):
+    import numpy as np
+    import random
+    maxn = 5 if tier == "quick" else 7
+    for data in _arrays(maxn, (0, 1, 2)):
+        yield dict(args=[list(data)])
+    rng = random.Random(seed)
+    for k in range(50 if tier == "quick" else 2000):
+        n = rng.randint(0, 40)
+        yield dict(args=[np.array([rng.randint(-5, 5) for _ in range(n)], dtype="i8")])
+        yield dict(args=[np.array(sorted(rng.random() for _ in range(n)))])
+
+
+@domain("esutil.algorithm.quicksort_keyvalue")
+def _dom_quicksort_kv(tier, seed):
+    import random
+    maxn = 4 if tier == "quick" else 6
+    for keys in _arrays(maxn, (0, 1, 2)):
+        yield dict(args=[list(keys), list(range(len(keys)))])
+    rng = random.Random(seed)
+    for k in range(50 if tier == "quick" else 2000):
+        n = rng.randint(0, 40)
+        yield dict(args=[[rng.randint(-5, 5) for _ in range(n)], [rng.randint(0, 3) for _ in range(n)]])
+
+
+@domain("esutil.algorithm.partition_keyvalue")
+def _dom_partition_kv(tier, seed):
+    maxn = 4 if tier == "quick" else 5
+    for keys in _arrays(maxn, (0, 1, 2)):
+        for s in range(len(keys)):
+            for e in range(s, len(keys)):
+                yield dict(args=[list(keys), list(range(10, 10 + len(keys))), s, e])
+
+
+# --------------------------------------------------------------------------- isplit
+contract(
+    "esutil.algorithm.isplit",
+    params=dict(num="nat", nchunks="int"),
+    returns="struct[start:int,end:int]",
+    raises=[("ValueError", "nchunks <= 0", "iff")],
+    ensures={
+        "count": "len(result) == nchunks",
+        "first-starts-at-0": "result['start'][0] == 0",
+        "contiguous": "all(result['end'][i] == result['start'][i + 1] for i in range(0, nchunks - 1))",
+        "last-ends-at-num": "result['end'][nchunks - 1] == num",
+        "sizes-differ-by-at-most-one-larger-first":
+            "all(result['end'][i] - result['start'][i] == num // nchunks + (1 if i < num % nchunks else 0)"
+            " for i in range(0, nchunks))",
+    },
+    asserts={
+        "L0:before": {
+            # closed form of the cumulative sum of [0] + extras*[q+1] + (nchunks-extras)*[q]
+            "cumsum-closed-form": "induct(k, 0, nchunks, div_points[k] == k * neach_section + (k if k < extras else extras))",
+        },
+    },
+    loops={
+        "L0": dict(counter="k", inv={
+            "filled": "all(subs['start'][j] == div_points[j] and subs['end'][j] == div_points[j + 1] for j in range(0, k))",
+            "shape": "len(subs) == nchunks and len(div_points) == nchunks + 1",
+        }),
+    },
+    props=["C20"],
+)
+
+
+@domain("esutil.algorithm.isplit")
+def _dom_isplit(tier, seed):
+    hi_n, hi_c = (40, 15) if tier == "quick" else (200, 60)
+    for num in range(0, hi_n + 1):
+        for nchunks in range(-1, hi_c + 1):
+            yield dict(args=[num, nchunks])
